@@ -25,6 +25,7 @@ import (
 	"github.com/ovh/kmip-go"
 	"github.com/ovh/kmip-go/kmipserver"
 	"github.com/ovh/kmip-go/payloads"
+	"github.com/ovh/kmip-go/ttlv"
 
 	"verifharness/vh"
 )
@@ -160,6 +161,9 @@ func newExecutor() *kmipserver.BatchExecutor {
 	return ex
 }
 
+// withIgnorableExt: every item carries a non-critical message extension (set by the replay pass that uses it)
+var withIgnorableExt bool
+
 func buildRequest(rid int, q Req) *kmip.RequestMessage {
 	msg := &kmip.RequestMessage{}
 	msg.Header.ProtocolVersion = kmip.V1_2
@@ -191,6 +195,11 @@ func buildRequest(rid int, q Req) *kmip.RequestMessage {
 		}
 		if it.HasId {
 			bi.UniqueBatchItemID = []byte(fmt.Sprintf("id-%d-%d", rid, i))
+		}
+		if withIgnorableExt && it.Out != "critical" {
+			// a message extension the server may ignore changes nothing
+			bi.MessageExtension = &kmip.MessageExtension{VendorIdentification: "verif", CriticalityIndicator: false,
+				VendorExtension: ttlv.Struct{{Tag: 0x540002, Value: "ignorable"}}}
 		}
 		msg.BatchItem = append(msg.BatchItem, bi)
 	}
@@ -310,7 +319,8 @@ func TestReplay(t *testing.T) {
 	for n, c := range cases {
 		// batch semantics are a function of the request message: the same case with a live context, with a context that is already
 		// cancelled when the request arrives (the client has gone away) and with one cancelled by the first handler that runs
-		for _, ctxMode := range []string{"live", "cancelled", "cancelled-by-handler"} {
+		for _, ctxMode := range []string{"live", "cancelled", "cancelled-by-handler", "live+ignorable-extensions"} {
+			withIgnorableExt = ctxMode == "live+ignorable-extensions"
 			rid := n + 1
 			parent := context.Background()
 			var cancelFn context.CancelFunc
